@@ -53,7 +53,7 @@ def execute(ex: Execution, kind: str, backend: str, idle_timeout: float, max_cra
         try:
             ctl.arm(store)
             stack = sh.Stack(store, idle_timeout=idle_timeout, wrap_basic=MonRuntime)
-            wf = spec["make"]()(timeout=None)
+            wf = spec["make"]()(timeout=spec.get("timeout"))
             stack.add_workflow("wf", wf)
 
             async def boot() -> None:
@@ -90,7 +90,7 @@ def execute(ex: Execution, kind: str, backend: str, idle_timeout: float, max_cra
             done_marker = "waiter_timeout" in types or sum(1 for t in ticks if t.get("type") == "step_result") >= 2
             timer_pending_at_crash = not done_marker and any(t.get("type") == "step_result" for t in ticks)
             stack2 = sh.Stack(store2, idle_timeout=idle_timeout, wrap_basic=MonRuntime)
-            wf2 = spec["make"]()(timeout=None)
+            wf2 = spec["make"]()(timeout=spec.get("timeout"))
             stack2.add_workflow("wf", wf2)
             e2.loop.create_task(stack2.service.start())
             e2.cfg.time_filter = horizon_filter(e2.loop)
